@@ -31,8 +31,9 @@ def format_called(h):
         e = z3.substitute(s.elem, (s.space.u, i))
         h.requires("mem_def", z3.ForAll([x], z3.Implies(s.mem()(x), z3.Exists([i], z3.And(i >= 0, i < s.space.n, e == x)))))
     spec_raise = z3.Exists([x], z3.Or(z3.And(L(x), R(x)), z3.And(L(x), z3.Not(C(x))), z3.And(R(x), z3.Not(C(x)))))
-    kind, res = h.call_method(self, "_format_called_contests", lhs, rhs, contests, 1, 0, -1)
     rp = lambda ev: {"target": "verif_replays:format_called_contests_replay", "args": [], "check": "result['exc'] is None and result['ok']"}  # noqa: E731
+    h.default_replay = rp
+    kind, res = h.call_method(self, "_format_called_contests", lhs, rhs, contests, 1, 0, -1)
     if kind == "raise":
         h.ensures("raises_only_dedicated_error", res.clsname == "BootstrapElectionModelException", replay=rp)
         h.ensures("raises_only_if_contradictory_or_unknown", spec_raise, replay=rp)
